@@ -97,6 +97,12 @@ func (ctx Ctx) coqTypeOfType(n ast.Node, t types.Type) coq.Type {
 		if t.Obj().Pkg() == nil {
 			ctx.unsupported(n, "unexpected built-in type %v", t.Obj())
 		}
+		if t.Obj().Pkg().Name() == "sync" &&
+			(t.Obj().Name() == "Mutex" || t.Obj().Name() == "Cond") {
+			// same restriction as selectorExprType, for types that are
+			// inferred rather than written (e.g. var mu sync.Mutex)
+			ctx.unsupported(n, "sync.%s without pointer indirection", t.Obj().Name())
+		}
 		if t.Obj().Pkg().Name() == "filesys" && t.Obj().Name() == "File" {
 			return coq.TypeIdent("fileT")
 		}
